@@ -33,6 +33,9 @@ def crystals():
     # inequivalent by a B atom on the c axis
     out['twoW'] = (crystal.Crystal(np.diag([a, a, 1.25 * a]), [[np.zeros(3), np.array([.5, .5, .5])], [np.array([0., 0., .5])]],
                                    chemistry=['A', 'B']), 0, 1.02 * a)
+    # orthorhombic with principal diffusivities in cyclic order, and monoclinic: the eigenvector matrix of D is not symmetric
+    out['ortho'] = (crystal.Crystal(np.diag([1.1 * a, 0.9 * a, a]), [np.zeros(3)], chemistry=['A']), 0, 1.15 * a)
+    out['mono'] = (crystal.Crystal(np.array([[1., 0., 0.35], [0., 0.9, 0.], [0., 0., 1.1]]), [np.zeros(3)], chemistry=['A']), 0, 1.2)
     out['oblique2d'] = (crystal.Crystal(np.array([[1., 0.3], [0., 1.15]]), [np.zeros(2)], chemistry=['A']), 0, 1.25)
     return out
 
@@ -90,7 +93,7 @@ def jsonable(d):
 
 
 def small_calculators(ctx):
-    names = ['fcc', 'sq2d', 'rect2d-2site', 'oblique2d'] if ctx.quick else \
+    names = ['fcc', 'sq2d', 'rect2d-2site', 'oblique2d', 'hcp'] if ctx.quick else \
         ['fcc', 'bcc', 'hcp', 'sq2d', 'tri2d', 'honey2d', 'rumpled', 'rect2d-2site', 'oblique2d', 'triclinic']
     return [(n, calculator(n, 1)) for n in names]
 
@@ -99,7 +102,7 @@ def monotonicity_oracle(ctx, named_calc):
     """C05 on the implementation: lower each omega0/omega1/omega2 transition-state energy individually."""
     name, calc = named_calc
     rng = ctx.rng
-    ndata = 1 if ctx.quick else 4
+    ndata = 2 if ctx.quick else 4      # odd data sets exercise the large-omega2 algorithm
     for t in range(ndata):
         d = rand_data(rng, calc)
         large = (t % 2 == 1)
@@ -109,8 +112,11 @@ def monotonicity_oracle(ctx, named_calc):
         scale = max(abs(L0[0]).max(), abs(L0[1]).max(), 1e-300)
         classes = [('eneT0', j) for j in range(len(d['eneT0']))] + [('eneT1', j) for j in range(len(d['eneT1']))] + \
                   [('eneT2', j) for j in range(len(d['eneT2']))]
-        if ctx.quick and len(classes) > 8:
-            classes = rng.sample(classes, 8)
+        if ctx.quick and len(classes) > 6:
+            # always keep the exchange classes: they decide the large-omega2 branch
+            keep = [c for c in classes if c[0] == 'eneT2']
+            rest = [c for c in classes if c[0] != 'eneT2']
+            classes = keep + rng.sample(rest, max(0, 6 - len(keep)))
         for which, j in classes:
             amt = rng.choice([1e-3, 0.1, 0.5, 2.0]) if ctx.quick else rng.choice([1e-6, 1e-3, 0.1, 0.5, 2.0, 10.0, 40.0])
             d1 = {k: np.array(v, copy=True) for k, v in d.items()}
